@@ -264,6 +264,21 @@ def _counter_and_chunk(prog):
 
     nxt = inlined(prog, nxt, keep={"_get_next_chunk"})  # private predicates / helpers of the reader expanded in place
     incs = [x for x in walk_no_nested(nxt.node) if isinstance(x, ast.AugAssign) and isinstance(x.op, ast.Add) and isinstance(x.target, ast.Attribute)]
+    # `self.n = self.n + C` and other re-assignments of the counter from itself count as its update; the amount is
+    # what is added to the old value (the whole right side when it is not of the form old + amount)
+    for x in walk_no_nested(nxt.node):
+        if isinstance(x, ast.Assign) and len(x.targets) == 1 and isinstance(x.targets[0], ast.Attribute) and any(unparse(y) == unparse(x.targets[0]) for y in ast.walk(x.value)):
+            v = x.value
+            amount = v
+            if isinstance(v, ast.BinOp) and isinstance(v.op, ast.Add):
+                if unparse(v.left) == unparse(x.targets[0]):
+                    amount = v.right
+                elif unparse(v.right) == unparse(x.targets[0]):
+                    amount = v.left
+            pseudo = ast.AugAssign(target=x.targets[0], op=ast.Add(), value=amount)
+            ast.copy_location(pseudo, x)
+            pseudo._origin_stmt = x  # type: ignore[attr-defined]
+            incs.append(pseudo)
     if not incs or len({unparse(x.target) for x in incs}) != 1:
         raise AnalysisError(f"C18.R2: counter increment in __next__ not recognised ({len(incs)} candidates)")
     return base, nxt, incs
@@ -279,11 +294,21 @@ def rule_r2(prog, res) -> None:
     cfg = cfg_of(nxt.node)
     # (1) increment is exactly +C (affine) and not inside a loop
     for i_ in incs:
-        if not affine_eq(affine(i_.value), {C: 1}) or "chunksize" not in C:
-            res.violation("C18.R2", nxt, i_, f"iteration counter advances by {unparse(i_.value)}, not by the chunk size", key_extra="increment-not-chunksize")
+        try:
+            amount_ok = affine_eq(affine(i_.value), {C: 1})
+        except Exception:  # noqa: BLE001 - not an affine amount (e.g. clipped with min(...))
+            amount_ok = False
+        if not amount_ok or "chunksize" not in C:
+            res.violation(
+                "C18.R2",
+                nxt,
+                getattr(i_, "_origin_stmt", i_),
+                f"iteration counter is updated by {unparse(i_.value)[:60]}, not advanced by exactly the chunk size: the readers take the rows [counter - chunksize, counter), so the last chunk overlaps the previous one or starts before the first row",
+                key_extra="increment-not-chunksize",
+            )
         else:
             res.ok("C18.R2", res.site(nxt, norm_stmt(i_)), "counter advances by exactly one chunk size")
-    inc_nodes = [n_ for i_ in incs for n_ in cfg.nodes_of(i_)]
+    inc_nodes = [n_ for i_ in incs for n_ in cfg.nodes_of(getattr(i_, "_origin_stmt", i_))]
     # exactly one increment on every path to a normal return
     for i_ in inc_nodes:
         after = cfg.reach([cfg.nodes[j] for j, lab in cfg.succ[i_.id] if lab != "e"], labels={"n", "t", "f", "loop", "exh"})
@@ -706,10 +731,21 @@ def rule_r5(prog, res) -> None:
         raise AnalysisError(f"C18.R5: only {n} while loops found in the package, minimum 5")
 
 
+def rule_r6(prog, res) -> None:
+    """the configured chunk size reaches every reader that is opened (shared with C09.R7, same-name option
+    forwarding): an auxiliary reader — e.g. one opened only for the probe pass — that is constructed without the
+    caller's `chunksize` reads with the default chunk size, i.e. in chunks of millions of rows"""
+    from . import c09
+    from .common import shared_rule
+
+    shared_rule(res, c09.rule_r7, "C09", "C09.R7", "C18.R6")
+
+
 RULES = [
     ("C18.R1", rule_r1, QUICK),
     ("C18.R2", rule_r2, QUICK),
     ("C18.R3", rule_r3, QUICK),
     ("C18.R4", rule_r4, QUICK),
     ("C18.R5", rule_r5, QUICK),
+    ("C18.R6", rule_r6, QUICK),
 ]
